@@ -1,0 +1,76 @@
+//go:build verif
+
+package rle
+
+// Contracts for the govc verifier (/verif). Compiled only with the build tag
+// "verif"; the //@ lines are machine-checked specifications of the functions
+// of this package.
+
+// ---- write buffer
+
+//@ func newWriteBuffer
+//@   modifies nothing
+//@   ensures res != nil && freshsince(res) && freshsince(res.d)
+
+//@ func (*writeBuffer).size
+//@   modifies nothing
+//@   ensures res == w.i
+
+//@ func (*writeBuffer).bytes
+//@   modifies nothing
+
+//@ func (*writeBuffer).write
+//@   requires w != nil
+//@   modifies w, HA(w.d)
+//@   ensures err == nil && sameOrFresh(w.d)
+
+//@ func (*writeBuffer).writeAt
+//@   requires w != nil
+//@   modifies w, HA(w.d)
+//@   ensures err == nil && sameOrFresh(w.d)
+
+// ---- encoder
+
+//@ func New
+//@   modifies nothing
+//@   ensures width <= 4 ==> err == nil && res0 != nil && freshsince(res0)
+//@   ensures width <= 4 ==> res0.out != nil && freshsince(res0.out) && freshsince(res0.out.d) && freshsince(res0.valBuf) && #res0.valBuf == 8
+
+// Ownership part of the encoder invariant: the RLE object owns its write
+// buffer and its 8-value staging buffer.
+//@ pred rleShape(r) := r != nil && r.out != nil && #r.valBuf == 8
+//@ pred rleKeeps(r) := r.out == old(r.out) && r.valBuf == old(r.valBuf) && sameOrFresh(r.out.d)
+
+//@ func (*RLE).Write
+//@   requires rleShape(r)
+//@   modifies r, r.out, HA(r.out.d), HA(r.valBuf)
+//@   ensures rleKeeps(r)
+
+//@ func (*RLE).writeOrAppendBitPackedRun
+//@   requires rleShape(r)
+//@   modifies r, r.out, HA(r.out.d)
+//@   ensures rleKeeps(r)
+
+//@ func (*RLE).endPreviousBitPackedRun
+//@   requires rleShape(r)
+//@   modifies r, r.out, HA(r.out.d)
+//@   ensures rleKeeps(r)
+
+//@ func (*RLE).writeRLERun
+//@   requires rleShape(r)
+//@   modifies r, r.out, HA(r.out.d)
+//@   ensures rleKeeps(r)
+
+//@ func (*RLE).writeIntLittleEndianPaddedOnBitWidth
+//@   modifies nothing
+
+//@ func (*RLE).leb128
+//@   modifies nothing
+//@ loop (*RLE).leb128#1
+//@   invariant freshOrNil(out)
+
+//@ func (*RLE).Bytes
+//@   requires rleShape(r)
+//@   modifies r, r.out, HA(r.out.d), HA(r.valBuf)
+//@ loop (*RLE).Bytes#1
+//@   invariant r.out == old(r.out) && r.valBuf == old(r.valBuf) && r.out.d == old(r.out.d) && 0 <= i
